@@ -182,17 +182,17 @@ theorem render_one_tuple_ne (t : Ty) (h : wf t = true) :
   simp at hsz
   omega
 
--- Non-vacuity: `&'a mut k::Holder<(u8,), 'static, 8>` and `unsafe extern "C" fn(x: [T; 4]) -> *const str`.
+-- Non-vacuity: `&'a mut k::Holder<(u8,), 'static, 8>` and `extern "C" fn(x: [T; 4]) -> *const str`.
 example : wf (.ref true (.named "a") (.path true "p" (some 3) ["k", "Holder"]
     (.ty (.tuple (.cons (.scalar .u8) .nil)) (.lt .static (.const "8" .nil))))) = true := by decide +kernel
 example : displayForError (.ref true (.named "a") (.path true "p" (some 3) ["k", "Holder"]
     (.ty (.tuple (.cons (.scalar .u8) .nil)) (.lt .static (.const "8" .nil)))))
     = "&'a mut k::Holder<(u8,), 'static, 8>" := by decide +kernel
 example : wf (.fnPtr (.cons (some "x") (.array (.generic "T") 4) .nil) (.some (.rawPtr false (.scalar .str)))
-    (.c false) true) = true := by decide +kernel
+    (.c false) false) = true := by decide +kernel
 example : displayForError (.fnPtr (.cons (some "x") (.array (.generic "T") 4) .nil)
-    (.some (.rawPtr false (.scalar .str))) (.c false) true)
-    = "unsafe extern \"C\" fn(x: [T; 4]) -> *const str" := by decide +kernel
+    (.some (.rawPtr false (.scalar .str))) (.c false) false)
+    = "extern \"C\" fn(x: [T; 4]) -> *const str" := by decide +kernel
 -- Outside `wf` the statement is false (a generic parameter named like a primitive reads back as the primitive).
 example : parse (renderD false (.generic "u8")) = some (.scalar .u8) := by decide +kernel
 
